@@ -115,7 +115,11 @@ func Verif_C07_foreach() {
 		pv, panicked = verifExpectPanic(func() {
 			switch {
 			case c < mw:
-				ForEach(e.generate, e.each, WithWorkers(c+1))
+				cfg := c + 1
+				if cfg == 1 { // a configured worker count below the minimum means one mapper at a time
+					cfg = []int{1, 0, -3}[verifChoose("configuredWorkers", 3)]
+				}
+				ForEach(e.generate, e.each, WithWorkers(cfg))
 			case c == mw:
 				fns := make([]func() error, e.n)
 				for i := range fns {
